@@ -344,6 +344,8 @@ def covering_programs(cat, rng, groups):
             for p in pg.covering(U):
                 items.append(gen.as_item(p, pid[0], rng))
                 pid[0] += 1
+        for _ in range(4):
+            items.append(gen.as_item(pg.misc(), pid[0], rng)); pid[0] += 1
         if g == 0:
             for _ in range(6):
                 items.append(gen.as_item(pg.system(), pid[0], rng)); pid[0] += 1
@@ -380,6 +382,8 @@ def seeded_program(cat, rng, idx, max_probes=24):
             w = rng.below(20)
             if w == 0:
                 p = pg.system()
+            elif w == 2:
+                p = pg.misc()
             elif w == 1 and cat.models and "Pressure" in cat.units:
                 p = pg.model(); p["gcc_only"] = True
             else:
